@@ -510,7 +510,8 @@ func runKeys(w *World, p map[string]int, prop string) {
 			if !inst.Started || inst.WM == nil {
 				break
 			}
-			newPub := fmt.Sprintf("Pub%dpass@", w.Stats["op.change_pubpass"]+1)
+			// (lengths vary: shorter, equal and longer than the one it replaces)
+			newPub := fmt.Sprintf("Pub%dpass@", w.Stats["op.change_pubpass"]+1) + strings.Repeat("x", t.Int(7))
 			var err error
 			inst.RunCall("ChangePubPassphrase", true, func() {
 				err = mwdb.Update(inst.DB, func(tx mwdb.DBTransaction) error {
@@ -523,8 +524,15 @@ func runKeys(w *World, p map[string]int, prop string) {
 			}
 			inst.PubPass = newPub
 			w.Stat("op.change_pubpass")
-			if err := inst.Restart(); err != nil {
-				w.Violate(prop+".restart-failed", "restart with the new public passphrase: %v", err)
+			// in half of the cases the process goes on with the new passphrase in
+			// memory only (wallets created or imported from now on are sealed
+			// with whatever it kept) and is restarted by a later operation
+			if t.Bool(50) {
+				if err := inst.Restart(); err != nil {
+					w.Violate(prop+".restart-failed", "restart with the new public passphrase: %v", err)
+				}
+			} else {
+				w.Stat("probe.pubpass_changed_without_restart")
 			}
 		}
 		if len(w.S.Panics) > 0 {
